@@ -407,6 +407,7 @@ def run(args):
                      '(literal kind, GI type, wraps/in-range) for constants; non-trivial = element found and judged')
     n = int((500 if args.tier == 'quick' else 40000) * args.scale)
     cases = [(args.seed, i) for i in range(n)]
+    cases = core.replay_cases(args, cases)
     B = 10
     batches = [cases[k:k + B] for k in range(0, len(cases), B)]
     harness = []
